@@ -592,10 +592,25 @@ def transform_paths(mir, fn_pattern, idx_flip, idx_swap, source_call=None):
 			return {"Ne": va != vb, "Eq": va == vb, "BitOr": va or vb, "BitAnd": va and vb, "BitXor": va != vb, "Not": not va}[op]
 		return None
 
+	# locals that hold (a reference into) the requested pyramid option of the converter parameters
+	req = set()
+	changed = True
+	while changed:
+		changed = False
+		for lines in blocks.values():
+			for l in lines:
+				m = re.match(r"^(_\d+) = (.+);$", l)
+				if not m or m.group(1) in req:
+					continue
+				expr = m.group(2)
+				if "Option<versatiles_core::types::TileBBoxPyramid>" in expr or any(re.search(r"\b%s\b" % re.escape(x), expr) for x in req):
+					req.add(m.group(1))
+					changed = True
+	guards = set()
 	result = {}
 	notes = []
-	for flip in (False, True):
-		for swap in (False, True):
+	for flip, swap, has_req in [(f, w, r) for f in (False, True) for w in (False, True) for r in (False, True)]:
+		if True:
 			seqs = set()
 			stack = [("bb0", (), False, 0)]
 			paths = 0
@@ -612,12 +627,22 @@ def transform_paths(mir, fn_pattern, idx_flip, idx_swap, source_call=None):
 					m = re.match(r"^(_\d+) = (?:copy|move) (_\d+);$", l)
 					if m and m.group(2) in flag_of:
 						flag_of[m.group(1)] = flag_of[m.group(2)]
+					if m and m.group(2) in guards:
+						guards.add(m.group(1))
 				m = CALL_ANY_RE.match(term)
 				if m:
 					dst, callee, args, nxt = m.groups()
 					t = re.search(r"<(?:[\w:]+::)?(TileCoord3|TileBBoxPyramid|TileBBox) as (?:[\w:]+::)?TransformCoord>::(flip_y|swap_xy)$", callee)
+					arg_locals = [re.findall(r"_\d+", a) for a in split_args(args)]
 					if t:
 						seq = seq + ((("flip" if t.group(2) == "flip_y" else "swap"), t.group(1)),)
+					elif re.search(r"TileBBoxPyramid::intersect$", callee) or re.search(r"TileBBox::intersect_pyramid$", callee):
+						which = "REQ" if len(arg_locals) > 1 and any(x in req for x in arg_locals[1]) else "ADV"
+						seq = seq + (("clip", which),)
+					elif re.search(r"TileBBoxPyramid::contains_coord$", callee):
+						which = "REQ" if arg_locals and any(x in req for x in arg_locals[0]) else "ADV"
+						seq = seq + (("guard", which),)
+						guards.add(dst)
 					elif source_call and re.search(source_call, callee):
 						seen_source = True
 					elif "map_coord" in callee:
@@ -629,7 +654,15 @@ def transform_paths(mir, fn_pattern, idx_flip, idx_swap, source_call=None):
 					loc, targets = m.groups()
 					tl = re.findall(r"(\w+): (bb\d+)", targets)
 					val = value_of(loc, flip, swap)
-					if val is not None:
+					if loc in guards:
+						# a containment guard: the path continues where the guard holds (its effect is modelled in SMT)
+						tgt = dict(tl).get("otherwise", dict(tl).get("1"))
+						stack.append((tgt, seq, seen_source, depth + 1))
+					elif loc in req:
+						# Some / None of the requested pyramid
+						tgt = dict(tl).get("1") if has_req else dict(tl).get("0")
+						stack.append((tgt, seq, seen_source, depth + 1))
+					elif val is not None:
 						tgt = dict(tl).get("0") if not val else dict(tl).get("otherwise", dict(tl).get("1"))
 						stack.append((tgt, seq, seen_source, depth + 1))
 					else:
@@ -658,8 +691,8 @@ def transform_paths(mir, fn_pattern, idx_flip, idx_swap, source_call=None):
 					continue
 				raise Inconclusive(f"terminator not understood: {term[:100]}")
 			if len(seqs) != 1:
-				raise Inconclusive(f"{fn_pattern[:50]} flip={flip} swap={swap}: {len(seqs)} different transform sequences on the success paths: {sorted(seqs)[:3]}")
-			result[(flip, swap)] = list(seqs.pop())
+				raise Inconclusive(f"{fn_pattern[:50]} flip={flip} swap={swap} requested={has_req}: {len(seqs)} different transform sequences on the success paths: {sorted(seqs)[:3]}")
+			result[(flip, swap, has_req)] = list(seqs.pop())
 	return result, notes, header.strip()
 
 
@@ -684,49 +717,110 @@ def smt_apply_box(seq, b):
 	return x0, y0, x1, y1
 
 
-def c06_query(kind, cov, lookup, sbox, smap):
+def _inbox(b, x, y):
+	return f"(and (<= {b}x0 {x}) (<= {x} {b}x1) (<= {b}y0 {y}) (<= {y} {b}y1))"
+
+
+def _t(op, x, y):
+	if op == "flip":
+		return x, f"(- M {y})"
+	if op == "swap":
+		return y, x
+	return x, y
+
+
+def c06_query(kind, cov, lookup, sbox, smap, has_req):
+	"""Boxes: S = source level box, R = requested level box (full level when no pyramid was requested), B = box asked of the stream.
+	cov/lookup/sbox are op lists of ("flip"|"swap", ty), ("clip", which), ("guard", which); all transforms are involutions."""
 	L = ["(set-logic ALL)", "(declare-const z Int)", "(declare-const M Int)", "(declare-const x Int)", "(declare-const y Int)",
 		"(assert (and (>= z 0) (<= z 31)))"]
-	# M = 2^z - 1 as a table (z is small)
 	L.append("(assert (or " + " ".join(f"(and (= z {k}) (= M {2 ** k - 1}))" for k in range(32)) + "))")
+	for b in ("S", "R", "B"):
+		for v in ("x0", "y0", "x1", "y1"):
+			L.append(f"(declare-const {b}{v} Int)")
+		L.append(f"(assert (and (>= {b}x0 0) (<= {b}x0 {b}x1) (<= {b}x1 M) (>= {b}y0 0) (<= {b}y0 {b}y1) (<= {b}y1 M)))")
+	if not has_req:
+		L.append("(assert (and (= Rx0 0) (= Ry0 0) (= Rx1 M) (= Ry1 M)))")
+	# p = (x, y) is a source tile
 	L.append("(assert (and (>= x 0) (<= x M) (>= y 0) (<= y M)))")
-	tx, ty = smt_apply(cov, "x", "y")  # T(p): where a source tile p appears in the output (coverage transform)
+	L.append("(assert " + _inbox("S", "x", "y") + ")")
+	# forward through the coverage computation: c = T(p), clips must hold on the way
+	cx, cy = "x", "y"
+	cov_ok = []
+	for op, arg in cov:
+		if op in ("flip", "swap"):
+			cx, cy = _t(op, cx, cy)
+		elif op == "clip":
+			cov_ok.append(_inbox("R", cx, cy) if arg == "REQ" else "true")
+	in_cov = "(and true " + " ".join(cov_ok) + ")"
 	if kind == "spec":
-		# the specification: flip first, then swap: T(x, y) = swap(flip(x, y))
-		want = smt_apply([op for op in cov], "x", "y")
-		flips = [op for op, _ in cov]
+		# T must be "flip first, then swap" and the advertised set must be T(S) restricted to the request
 		sx, sy = "x", "y"
+		flips = [op for op, _ in cov]
 		if "flip" in flips:
 			sy = "(- M y)"
 		if "swap" in flips:
 			sx, sy = sy, sx
-		L.append(f"(assert (not (and (= {tx} {sx}) (= {ty} {sy}))))")
+		L.append(f"(assert (not (and (= {cx} {sx}) (= {cy} {sy}) (= {in_cov} {_inbox('R', sx, sy)}))))")
 	elif kind == "lookup":
-		# requesting c = T(p) must consult the source at p
-		lx, ly = smt_apply(lookup, tx, ty)
-		L.append(f"(assert (not (and (= {lx} x) (= {ly} y))))")
+		# a tile of the advertised coverage must be found by the lookup, at its pre-image
+		L.append(f"(assert {in_cov})")
+		lx, ly = cx, cy
+		ok_guards = []
+		for op, arg in lookup:
+			if op in ("flip", "swap"):
+				lx, ly = _t(op, lx, ly)
+			elif op == "guard":
+				if arg == "REQ":
+					ok_guards.append(_inbox("R", lx, ly))
+				else:
+					# advertised pyramid: membership of the current point q means: q = T(p') for a source tile p' passing the clips
+					qx, qy = lx, ly
+					conds = []
+					for op2, arg2 in reversed(cov):
+						if op2 == "clip":
+							conds.append(_inbox("R", qx, qy) if arg2 == "REQ" else "true")
+						else:
+							qx, qy = _t(op2, qx, qy)
+					ok_guards.append("(and " + _inbox("S", qx, qy) + " " + " ".join(conds) + ")")
+		L.append("(assert (not (and true " + " ".join(ok_guards) + f" (= {lx} x) (= {ly} y))))")
 	elif kind == "stream_coord":
-		# a tile streamed from source position p must be delivered at T(p)
 		mx, my = smt_apply(smap, "x", "y")
-		L.append(f"(assert (not (and (= {mx} {tx}) (= {my} {ty}))))")
+		L.append(f"(assert (not (and (= {mx} {cx}) (= {my} {cy}))))")
 	elif kind == "stream_box":
-		# the box handed to the source must contain p exactly when the requested box contains T(p)
-		for v in ("a0", "b0", "a1", "b1"):
-			L.append(f"(declare-const {v} Int)")
-		L.append("(assert (and (>= a0 0) (<= a0 a1) (<= a1 M) (>= b0 0) (<= b0 b1) (<= b1 M)))")
-		sx0, sy0, sx1, sy1 = smt_apply_box(sbox, ("a0", "b0", "a1", "b1"))
-		in_req = f"(and (<= a0 {tx}) (<= {tx} a1) (<= b0 {ty}) (<= {ty} b1))"
-		in_src = f"(and (<= {sx0} x) (<= x {sx1}) (<= {sy0} y) (<= y {sy1}))"
-		L.append(f"(assert (not (= {in_req} {in_src})))")
+		# a tile of the advertised coverage that lies in the requested box B must lie in the box handed to the source
+		L.append(f"(assert {in_cov})")
+		L.append("(assert " + _inbox("B", cx, cy) + ")")
+		# membership of p in the transformed box: walk the box operations backwards from p
+		ux, uy = "x", "y"
+		conds = []
+		for op, arg in reversed(sbox):
+			if op in ("flip", "swap"):
+				ux, uy = _t(op, ux, uy)
+			elif op == "clip":
+				if arg == "REQ":
+					conds.append(_inbox("R", ux, uy))
+				else:
+					qx, qy = ux, uy
+					c2 = []
+					for op2, arg2 in reversed(cov):
+						if op2 == "clip":
+							c2.append(_inbox("R", qx, qy) if arg2 == "REQ" else "true")
+						else:
+							qx, qy = _t(op2, qx, qy)
+					conds.append("(and " + _inbox("S", qx, qy) + " " + " ".join(c2) + ")")
+		L.append("(assert (not (and " + _inbox("B", ux, uy) + " " + " ".join(conds) + ")))")
 	L.append("(check-sat)")
 	L.append("(get-model)")
 	return "\n".join(L) + "\n"
 
 
 C06_REPLAY_MAIN = r'''
-// Native replay for C06 (transform consistency): a 4x4 source at zoom 2 whose tiles carry their own coordinates;
-// for the given flags the converting reader's lookup and stream must both place source tile p at T(p) = swap(flip(p)).
-use versatiles_container::{TilesConvertReader, TilesConverterParameters, MockTilesReader};
+// Native replay for C06 (transform consistency): a 4x4 source at zoom 2 whose tiles carry their own coordinates.
+// For the given flags (and, optionally, a requested pyramid with the asymmetric level box (0,0)-(1,2)) every tile of the
+// ADVERTISED coverage must be returned by the lookup and delivered by the stream, carrying the source tile at its
+// pre-image under T = swap . flip.
+use versatiles_container::{TilesConvertReader, TilesConverterParameters};
 use versatiles_core::types::*;
 
 #[derive(Debug)]
@@ -750,35 +844,37 @@ fn main() {
 
 async fn run() {
 	let args: Vec<String> = std::env::args().collect();
-	let (flip, swap) = (args[1] == "true", args[2] == "true");
+	let (flip, swap, with_req) = (args[1] == "true", args[2] == "true", args.len() > 3 && args[3] == "true");
 	let mut pyr = TileBBoxPyramid::new_empty();
 	pyr.set_level_bbox(TileBBox::new(2, 0, 0, 3, 3).unwrap());
 	let echo = Echo { p: TilesReaderParameters::new(TileFormat::PBF, TileCompression::Uncompressed, pyr), tj: Default::default() };
-	let conv = TilesConvertReader::new_from_reader(Box::new(echo), TilesConverterParameters::new(None, None, false, flip, swap)).unwrap();
+	let req = if with_req {
+		let mut r = TileBBoxPyramid::new_empty();
+		r.set_level_bbox(TileBBox::new(2, 0, 0, 1, 2).unwrap());
+		Some(r)
+	} else { None };
+	let conv = TilesConvertReader::new_from_reader(Box::new(echo), TilesConverterParameters::new(None, req, false, flip, swap)).unwrap();
+	let advertised = conv.get_parameters().bbox_pyramid.clone();
 	let mut bad = 0;
-	for x in 0..4u32 { for y in 0..4u32 {
-		let (mut tx, mut ty) = (x, y);
-		if flip { ty = 3 - ty; }
-		if swap { std::mem::swap(&mut tx, &mut ty); }
-		let want = format!("{},{},2", x, y);
-		let got = conv.get_tile_data(&TileCoord3::new(tx, ty, 2).unwrap()).await.unwrap();
-		if got.map(|b| b.as_str().to_string()) != Some(want.clone()) { bad += 1; println!("lookup at ({tx},{ty}) does not return source tile ({x},{y})"); }
-	}}
+	let pre = |cx: u32, cy: u32| { let (mut x, mut y) = (cx, cy); if swap { std::mem::swap(&mut x, &mut y); } if flip { y = 3 - y; } (x, y) };
 	let items = conv.get_bbox_tile_stream(TileBBox::new(2, 0, 0, 3, 3).unwrap()).await.collect().await;
-	for (c, b) in items {
-		let v: Vec<u32> = b.as_str().split(',').map(|s| s.parse().unwrap()).collect();
-		let (mut tx, mut ty) = (v[0], v[1]);
-		if flip { ty = 3 - ty; }
-		if swap { std::mem::swap(&mut tx, &mut ty); }
-		if (c.x, c.y) != (tx, ty) { bad += 1; println!("stream delivers source tile ({},{}) at ({},{})", v[0], v[1], c.x, c.y); }
-	}
+	for cx in 0..4u32 { for cy in 0..4u32 {
+		let c = TileCoord3::new(cx, cy, 2).unwrap();
+		if !advertised.contains_coord(&c) { continue; }
+		let (x, y) = pre(cx, cy);
+		let want = format!("{},{},2", x, y);
+		let got = conv.get_tile_data(&c).await.unwrap();
+		if got.map(|b| b.as_str().to_string()) != Some(want.clone()) { bad += 1; println!("lookup at ({cx},{cy}) does not return source tile ({x},{y})"); }
+		let in_stream: Vec<_> = items.iter().filter(|(ic, _)| *ic == c).collect();
+		if in_stream.len() != 1 || in_stream[0].1.as_str() != want { bad += 1; println!("stream does not deliver source tile ({x},{y}) at ({cx},{cy}) exactly once"); }
+	}}
 	if bad > 0 { println!("REPRODUCED: {bad} mismatches"); std::process::exit(1); }
 	println!("not reproduced");
 }
 '''
 
 
-def c06_native_replay(flip, swap):
+def c06_native_replay(flip, swap, req_model=None):
 	d = os.path.join(vlib.WORK, "c06-replay")
 	shutil.rmtree(d, ignore_errors=True)
 	os.makedirs(os.path.join(d, "src"))
@@ -788,11 +884,11 @@ def c06_native_replay(flip, swap):
 			f'versatiles_container = {{ path = "{MIRWS}/versatiles_container", default-features = false }}\n'
 			'futures = "0.3"\nanyhow = "1"\nasync-trait = "0.1"\ntokio = { version = "1", features = ["rt-multi-thread"] }\n')
 	with open(os.path.join(d, "src", "main.rs"), "w") as f:
-		f.write(C06_REPLAY_MAIN.replace(", MockTilesReader", ""))
+		f.write(C06_REPLAY_MAIN)
 	shutil.copyfile(os.path.join(vlib.REPO, "Cargo.lock"), os.path.join(d, "Cargo.lock"))
 	env = dict(vlib.ENV)
 	env["CARGO_TARGET_DIR"] = os.path.join(vlib.WORK, "target-c13")
-	p = subprocess.run(["cargo", "run", "--offline", "--release", "--", str(flip).lower(), str(swap).lower()], cwd=d, env=env,
+	p = subprocess.run(["cargo", "run", "--offline", "--release", "--", str(flip).lower(), str(swap).lower(), str(req_model is not None).lower()], cwd=d, env=env,
 		stdout=subprocess.PIPE, stderr=subprocess.STDOUT, text=True)
 	return ("REPRODUCED" in p.stdout), p.stdout[-3000:]
 
@@ -813,29 +909,31 @@ def run_c06_transform(prop, tier):
 			out["inconclusive"].append(n + " (a data-dependent early exit is outside the transform model)")
 		solvers = ["z3"] if tier == "quick" else ["z3", "cvc5"]
 		known = vlib.load_known()
-		for flip in (False, True):
-			for swap in (False, True):
-				c = [t for t in cov[(flip, swap)] if t[0] in ("flip", "swap")]
-				l = [t for t in look[(flip, swap)] if t[0] in ("flip", "swap")]
-				sb = [t for t in sbox[(flip, swap)] if t[0] in ("flip", "swap")]
-				has_map = any(t[0] == "map_coord" for t in sbox[(flip, swap)])
-				sm = [t for t in smap[(flip, swap)] if t[0] in ("flip", "swap")] if has_map else []
-				sample = {"flip_y": flip, "swap_xy": swap, "coverage_calls": c, "lookup_calls": l, "stream_box_calls": sb, "stream_coord_calls": sm, "stream_installs_coord_map": has_map}
+		KEEP = ("flip", "swap", "clip", "guard")
+		for flip, swap, has_req in [(f, w, r) for f in (False, True) for w in (False, True) for r in (False, True)]:
+			if True:
+				key = (flip, swap, has_req)
+				c = [t for t in cov[key] if t[0] in KEEP]
+				l = [t for t in look[key] if t[0] in KEEP]
+				sb = [t for t in sbox[key] if t[0] in KEEP]
+				has_map = any(t[0] == "map_coord" for t in sbox[key])
+				sm = [t for t in smap[key] if t[0] in ("flip", "swap")] if has_map else []
+				sample = {"flip_y": flip, "swap_xy": swap, "requested_pyramid": has_req, "coverage_calls": c, "lookup_calls": l, "stream_box_calls": sb, "stream_coord_calls": sm, "stream_installs_coord_map": has_map}
 				out["samples"].append(sample)
 				for kind in ("spec", "lookup", "stream_coord", "stream_box"):
-					smt = c06_query(kind, c, l, sb, sm)
+					smt = c06_query(kind, c, l, sb, sm, has_req)
 					verdicts = []
 					for s in solvers:
 						v, o, dt = run_solver(smt, s)
 						verdicts.append(v)
-						out["queries"].append({"flags": f"flip={flip} swap={swap}", "query": kind, "solver": s, "verdict": v, "expected": "unsat", "seconds": round(dt, 2)})
+						out["queries"].append({"flags": f"flip={flip} swap={swap} requested={has_req}", "query": kind, "solver": s, "verdict": v, "expected": "unsat", "seconds": round(dt, 2)})
 					v0 = verdicts[0]
 					if any(v != v0 for v in verdicts) or v0 not in ("sat", "unsat"):
-						out["inconclusive"].append(f"transform {kind} flip={flip} swap={swap}: solver verdicts {verdicts}")
+						out["inconclusive"].append(f"transform {kind} flip={flip} swap={swap} requested={has_req}: solver verdicts {verdicts}")
 						continue
 					if v0 == "sat":
 						vals = model_values(o)
-						what = (f"converting reader, flip_y={flip} swap_xy={swap}: {kind} path disagrees with the advertised coverage transform "
+						what = (f"converting reader, flip_y={flip} swap_xy={swap} requested pyramid={has_req}: {kind} path disagrees with the advertised coverage "
 							f"(z={vals.get('z')}, source tile ({vals.get('x')},{vals.get('y')})); calls: coverage {c}, lookup {l}, stream box {sb}, stream coords {sm}")
 						k = next((k for k in known.get("findings", []) if k["property"] == prop and k.get("harness") == f"transform_{kind}"), None)
 						if k:
@@ -843,9 +941,9 @@ def run_c06_transform(prop, tier):
 							continue
 						rdir = os.path.join(vlib.VERIF, "replay", prop)
 						os.makedirs(rdir, exist_ok=True)
-						rpath = os.path.join(rdir, f"transform_{kind}_flip{int(flip)}_swap{int(swap)}.json")
+						rpath = os.path.join(rdir, f"transform_{kind}_flip{int(flip)}_swap{int(swap)}_req{int(has_req)}.json")
 						json.dump({"what": what, "sample": sample, "model": vals}, open(rpath, "w"), indent=1)
-						rep, log = c06_native_replay(flip, swap)
+						rep, log = c06_native_replay(flip, swap, vals if has_req else None)
 						open(rpath + ".native.log", "w").write(log)
 						if rep:
 							out["lines"].append(f"VIOLATION property={prop} replay={rpath} {what}")
